@@ -58,7 +58,7 @@ theorem lazy_loop (now : Int) (spec document nowV : Val) (T : List Index) :
         | ok new =>
           rw [ha] at h
           dsimp only at h
-          by_cases hc : (if c.isOD key then pyEqOrdered new v else pyEq new v) = true
+          by_cases hc : pyEq new v = true
           · rw [if_pos hc] at h
             cases hu : ensureUniques now (c.setDoc key new) new with
             | error e => rw [hu] at h; cases h
